@@ -211,6 +211,7 @@ func (t *Transaction) decodeBinaryNoSize(br *io.BinReader, buf []byte) {
 	if br.Err != nil {
 		return
 	}
+	witStart := len(buf) - br.Len()
 	nscripts := br.ReadVarUint()
 	if nscripts > MaxAttributes {
 		br.Err = errors.New("too many witnesses")
@@ -222,6 +223,19 @@ func (t *Transaction) decodeBinaryNoSize(br *io.BinReader, buf []byte) {
 	t.Scripts = make([]Witness, nscripts)
 	for i := range t.Scripts {
 		t.Scripts[i].DecodeBinary(br)
+	}
+	// The size is the length of the canonical encoding. Received bytes can
+	// differ from it (non-minimal variable-length integers), use their length
+	// only if they're the same: the signed part was compared already (that's
+	// when the hash is taken from it), the witnesses are measured here.
+	if buf != nil && br.Err == nil && t.hashed {
+		witSize := io.GetVarSize(len(t.Scripts))
+		for i := range t.Scripts {
+			witSize += io.GetVarSize(t.Scripts[i].InvocationScript) + io.GetVarSize(t.Scripts[i].VerificationScript)
+		}
+		if end := len(buf) - br.Len(); end-witStart == witSize {
+			t.size = end
+		}
 	}
 
 	// Create the hash of the transaction at decode, so we dont need
@@ -332,7 +346,7 @@ func NewTransactionFromBytes(b []byte) (*Transaction, error) {
 	if r.Len() != 0 {
 		return nil, errors.New("additional data after the transaction")
 	}
-	tx.size = len(b)
+	_ = tx.Size()
 	return tx, nil
 }
 
